@@ -1,3 +1,4 @@
+import numpy as np
 import torch
 from torch.nn import functional as F
 
@@ -151,9 +152,13 @@ def quadratic_spline(
             (alpha * (input_right_heights - input_left_heights) + input_left_heights)
         )
 
+    # The normalisation to the unit square and back scales the derivative by the aspect ratio of the box.
+    log_box_scale = np.log(top - bottom) - np.log(right - left)
     if inverse:
         outputs = outputs * (right - left) + left
+        logabsdet = logabsdet - log_box_scale
     else:
         outputs = outputs * (top - bottom) + bottom
+        logabsdet = logabsdet + log_box_scale
 
     return outputs, logabsdet
